@@ -56,14 +56,15 @@ type normalizer struct {
 	imports map[string]map[string]string // file -> path -> name to add
 	seq     int
 
-	hoistFirst []ast.Expr // effectful operands evaluated before a call that is being hoisted (set by hoistable)
-	noConcrete bool       // do not bind interface parameters with the argument's own type
-	hasDefer   map[*ast.FuncDecl]bool
-	varDef     map[types.Object]ast.Expr        // local variable defined once by this expression
-	varBad     map[types.Object]bool            // reassigned / address taken / unknown definition
-	varAssign  map[types.Object]*ast.AssignStmt // for `var x T; x = e`: the single assignment
-	varDefNode map[types.Object]ast.Node        // the `x := e` statement that defines a local
-	keptAlive  map[types.Object]bool            // closure variables given a `_ = x` because their calls were inlined
+	hoistFirst  []ast.Expr // effectful operands evaluated before a call that is being hoisted (set by hoistable)
+	noConcrete  bool       // do not bind interface parameters with the argument's own type
+	hasDefer    map[*ast.FuncDecl]bool
+	varDef      map[types.Object]ast.Expr        // local variable defined once by this expression
+	varBad      map[types.Object]bool            // reassigned / address taken / unknown definition
+	curTypeText func(types.Type) (string, bool)  // renders a type at the site being inlined (set around bodyText)
+	varAssign   map[types.Object]*ast.AssignStmt // for `var x T; x = e`: the single assignment
+	varDefNode  map[types.Object]ast.Node        // the `x := e` statement that defines a local
+	keptAlive   map[types.Object]bool            // closure variables given a `_ = x` because their calls were inlined
 }
 
 func sigOfTypes(sig *types.Signature) string {
@@ -342,7 +343,7 @@ func (n *normalizer) classify() {
 			if i := strings.Index(k, "."); i >= 0 {
 				kr = k[:i]
 			}
-			if kr == recv {
+			if kr == recv && n.usedLike(fn, k) {
 				renamed = true
 			}
 		}
@@ -1163,33 +1164,68 @@ func (n *normalizer) selectHoist(s *site, cc *ast.CommClause) *ast.SelectStmt {
 // the deferred calls can be made explicitly at each of its returns (argument and function values captured where the defer
 // statement stood). Executions in which the callee panics are the only ones that differ.
 func (n *normalizer) simpleDefers(fd *ast.FuncDecl) bool {
+	// named results: fine as long as no function literal of the callee can see them (a deferred closure could change
+	// what is returned)
+	named := map[types.Object]bool{}
 	for _, id := range fieldIdents(fd.Type.Results) {
-		if id != nil {
-			return false
-		}
-	}
-	top := map[*ast.DeferStmt]bool{}
-	for _, st := range fd.Body.List {
-		if d, ok := st.(*ast.DeferStmt); ok {
-			top[d] = true
+		if id != nil && id.Name != "_" {
+			if obj := n.info.Defs[id]; obj != nil {
+				named[obj] = true
+			}
 		}
 	}
 	ok := true
-	var visit func(node ast.Node)
-	visit = func(node ast.Node) {
+	if len(named) > 0 {
+		ast.Inspect(fd.Body, func(x ast.Node) bool {
+			if lit, isLit := x.(*ast.FuncLit); isLit {
+				ast.Inspect(lit.Body, func(y ast.Node) bool {
+					if id, isId := y.(*ast.Ident); isId && named[n.info.Uses[id]] {
+						ok = false
+					}
+					return ok
+				})
+				return false
+			}
+			return ok
+		})
+		if !ok {
+			return false
+		}
+	}
+	// every defer: a statement executed at most once per call (not inside a loop); those nested in branches are made
+	// conditional on a flag set where the defer statement stood
+	var visit func(node ast.Node, inLoop bool)
+	visit = func(node ast.Node, inLoop bool) {
 		ast.Inspect(node, func(x ast.Node) bool {
+			if !ok || x == nil {
+				return false
+			}
 			switch y := x.(type) {
 			case *ast.FuncLit:
 				return false
+			case *ast.ForStmt:
+				if x != node {
+					visit(y.Body, true)
+					return false
+				}
+			case *ast.RangeStmt:
+				if x != node {
+					visit(y.Body, true)
+					return false
+				}
 			case *ast.DeferStmt:
-				if !top[y] {
+				if inLoop {
+					ok = false
+				}
+			case *ast.BranchStmt:
+				if y.Tok == token.GOTO {
 					ok = false
 				}
 			}
 			return ok
 		})
 	}
-	visit(fd.Body)
+	visit(fd.Body, false)
 	return ok
 }
 
@@ -1555,7 +1591,21 @@ func (n *normalizer) sroaRound() bool {
 				switch p := u.parent.(type) {
 				case *ast.SelectorExpr:
 					sel := n.info.Selections[p]
-					if p.X != ast.Expr(u.id) || sel == nil || sel.Kind() != types.FieldVal || len(sel.Index()) != 1 || (r == "val" && a != final) {
+					// a holder that was moved from may be accessed before the move (it is dead afterwards)
+					movedLater := false
+					if r == "val" && a != final {
+						for m2, mr := range role {
+							if mr != "val" || m2 == a {
+								continue
+							}
+							if d := n.varDef[m2]; d != nil {
+								if did, isId := ast.Unparen(d).(*ast.Ident); isId && n.info.Uses[did] == a && p.End() <= did.Pos() {
+									movedLater = true
+								}
+							}
+						}
+					}
+					if p.X != ast.Expr(u.id) || sel == nil || sel.Kind() != types.FieldVal || len(sel.Index()) != 1 || (r == "val" && a != final && !movedLater) {
 						okAll = false
 						sroaWhy += fmt.Sprintf(" #%d", 2)
 					} else {
@@ -2223,11 +2273,11 @@ func eachStmtList(st ast.Stmt, f func(list *[]ast.Stmt)) {
 // runs the test with BODY in place, so that no merged result variable (and no spurious path from a failing return into
 // the success continuation) is introduced.
 type threadSpec struct {
-	lhs    []string       // assignment targets, one per result
-	errIdx int            // index of the tested result
-	cond   string         // name tested against nil
-	body   *ast.BlockStmt // BODY
-	whole  *ast.IfStmt    // general form: the complete if statement (without its init) to continue with
+	lhs    []string        // assignment targets, one per result
+	errIdx int             // index of the tested result
+	cond   string          // name tested against nil
+	body   *ast.BlockStmt  // BODY
+	whole  *ast.IfStmt     // general form: the complete if statement (without its init) to continue with
 	ret    *ast.ReturnStmt // the continuation is a return statement (spelled `if true { return … }` in whole)
 	// general form with the condition `t` / `!t` for a boolean target t: index of t, and whether it is negated
 	boolIdx int
@@ -2301,6 +2351,67 @@ func (n *normalizer) bodyText(fd *ast.FuncDecl, mode string, temps []string, res
 	// deferred calls (non-tail modes): captured where the defer statement stood, made explicitly at every return
 	var active []ast.Stmt // in registration order
 	ndefer := 0
+	rev := map[ast.Node]ast.Node{} // clone -> original (for type information)
+	for on, cn := range m {
+		rev[cn] = on
+	}
+	var nestedDecls []ast.Stmt // declarations of the temporaries of nested defers, put at the top of the body
+	nestedOK := true
+	typeOfClone := func(e ast.Expr) string {
+		orig, _ := rev[e].(ast.Expr)
+		if orig == nil || n.curTypeText == nil {
+			nestedOK = false
+			return "interface{}"
+		}
+		tt, ok := n.curTypeText(n.info.TypeOf(orig))
+		if !ok {
+			nestedOK = false
+			return "interface{}"
+		}
+		return tt
+	}
+	declVar := func(name, typ string) {
+		nestedDecls = append(nestedDecls, &ast.DeclStmt{Decl: &ast.GenDecl{Tok: token.VAR, Specs: []ast.Spec{
+			&ast.ValueSpec{Names: []*ast.Ident{ast.NewIdent(name)}, Type: ast.NewIdent(typ)}}}})
+		nestedDecls = append(nestedDecls, &ast.AssignStmt{Lhs: []ast.Expr{ast.NewIdent("_")}, Tok: token.ASSIGN, Rhs: []ast.Expr{ast.NewIdent(name)}})
+	}
+	// captureNested: a defer statement inside a branch: its function and operands are evaluated there into variables declared
+	// at the top of the callee, a flag records that it was reached, and every later return makes the call if the flag is set
+	captureNested := func(d *ast.DeferStmt) []ast.Stmt {
+		ndefer++
+		var out []ast.Stmt
+		call := &ast.CallExpr{}
+		fun := d.Call.Fun
+		isBuiltin := false
+		if id, ok := fun.(*ast.Ident); ok {
+			switch id.Name {
+			case "close", "delete", "panic", "print", "println", "recover":
+				isBuiltin = true
+			}
+		}
+		if isBuiltin {
+			call.Fun = fun
+		} else {
+			fv := fmt.Sprintf("%sd%df", label, ndefer)
+			declVar(fv, typeOfClone(fun))
+			out = append(out, &ast.AssignStmt{Lhs: []ast.Expr{ast.NewIdent(fv)}, Tok: token.ASSIGN, Rhs: []ast.Expr{fun}})
+			call.Fun = ast.NewIdent(fv)
+		}
+		for i, a := range d.Call.Args {
+			av := fmt.Sprintf("%sd%da%d", label, ndefer, i)
+			declVar(av, typeOfClone(a))
+			out = append(out, &ast.AssignStmt{Lhs: []ast.Expr{ast.NewIdent(av)}, Tok: token.ASSIGN, Rhs: []ast.Expr{a}})
+			call.Args = append(call.Args, ast.NewIdent(av))
+		}
+		if d.Call.Ellipsis.IsValid() && len(call.Args) > 0 {
+			call.Ellipsis = 1
+		}
+		flag := fmt.Sprintf("%sd%dg", label, ndefer)
+		declVar(flag, "bool")
+		out = append(out, &ast.AssignStmt{Lhs: []ast.Expr{ast.NewIdent(flag)}, Tok: token.ASSIGN, Rhs: []ast.Expr{ast.NewIdent("true")}})
+		active = append(active, &ast.IfStmt{Cond: ast.NewIdent(flag), Body: &ast.BlockStmt{List: []ast.Stmt{&ast.ExprStmt{X: call}}}})
+		return out
+	}
 	captureDefer := func(d *ast.DeferStmt) []ast.Stmt {
 		ndefer++
 		var out []ast.Stmt
@@ -2344,8 +2455,13 @@ func (n *normalizer) bodyText(fd *ast.FuncDecl, mode string, temps []string, res
 	rewrite = func(list *[]ast.Stmt, top bool) {
 		for i := 0; i < len(*list); i++ {
 			st := (*list)[i]
-			if d, isDefer := st.(*ast.DeferStmt); isDefer && top && mode != "tail" {
-				caps := captureDefer(d)
+			if d, isDefer := st.(*ast.DeferStmt); isDefer && mode != "tail" {
+				var caps []ast.Stmt
+				if top {
+					caps = captureDefer(d)
+				} else {
+					caps = captureNested(d)
+				}
 				nl := append([]ast.Stmt{}, (*list)[:i]...)
 				nl = append(nl, caps...)
 				nl = append(nl, (*list)[i+1:]...)
@@ -2435,6 +2551,12 @@ func (n *normalizer) bodyText(fd *ast.FuncDecl, mode string, temps []string, res
 	rewrite(&body.List, true)
 	if mode != "tail" && len(active) > 0 && !finalRet {
 		body.List = append(body.List, runDefers()...) // falling off the end of a result-less callee
+	}
+	if !nestedOK {
+		return "", false, fmt.Errorf("type of a deferred operand cannot be written")
+	}
+	if len(nestedDecls) > 0 {
+		body.List = append(nestedDecls, body.List...)
 	}
 	var out bytes.Buffer
 	for _, st := range body.List {
@@ -2893,7 +3015,9 @@ func (n *normalizer) inlineSite(filename string, s *site) (done bool) {
 	if th != nil {
 		mode = "thread"
 	}
+	n.curTypeText = func(t types.Type) (string, bool) { return n.typeText(t, s.file, filename) }
 	body, usedLabel, err := n.bodyText(fd, mode, temps, resNames, label, rename, th)
+	n.curTypeText = nil
 	if err != nil {
 		return n.reject(s, 24)
 	}
@@ -3386,4 +3510,38 @@ func requestCtxLike(fn *types.Func) bool {
 		}
 	}
 	return false
+}
+
+// usedLike: fn is mentioned from at least one of the places the reference function headKey was mentioned from (or that
+// function was mentioned from nowhere inside the package): what a rename looks like, as opposed to a new function that
+// happens to have the signature of a removed one.
+func (n *normalizer) usedLike(fn *types.Func, headKey string) bool {
+	was := headCallers[headKey]
+	if len(was) == 0 {
+		return true
+	}
+	wasSet := map[string]bool{}
+	for _, w := range was {
+		wasSet[w] = true
+	}
+	hit := false
+	for _, f := range n.pp.Syntax {
+		for _, d := range f.Decls {
+			fd, ok := d.(*ast.FuncDecl)
+			if !ok || fd.Body == nil {
+				continue
+			}
+			top, _ := n.info.Defs[fd.Name].(*types.Func)
+			if top == nil || !wasSet[funcKeyOf(top)] {
+				continue
+			}
+			ast.Inspect(fd.Body, func(x ast.Node) bool {
+				if id, ok := x.(*ast.Ident); ok && n.info.Uses[id] == types.Object(fn) {
+					hit = true
+				}
+				return !hit
+			})
+		}
+	}
+	return hit
 }
